@@ -344,6 +344,51 @@ def copy_clause(model, rep, funcs):
                clause="4 copy", stmt="def __init__ astype")
 
 
+def copy_forwarding_clause(model, rep):
+    """A pose-changing method that takes `copy` and delegates to another method taking `copy` passes it on: otherwise `m.translate_internal(s, copy=False)` leaves m
+    where it was and returns a new object - an in-place sequence of steps silently stops composing."""
+    from .generic import forwarded_parameter_obligations
+    takers = {}
+    for g in model.all_functions:
+        if g.cls is not None and g.cls.name == "Molecules" and "copy" in g.param_names() and not g.is_overload:
+            a_ = g.node.args
+            ps = [x.arg for x in list(a_.posonlyargs) + list(a_.args)][1:]
+            takers.setdefault(g.name, set())
+            if "copy" in ps:
+                takers[g.name].add(ps.index("copy"))
+    for fn in model.all_functions:
+        if fn.cls is not None and fn.cls.name == "Molecules" and "copy" in fn.param_names() and not fn.is_overload:
+            forwarded_parameter_obligations(model, rep, fn, "copy", takers, "4 copy")
+    rep.floor("FWDP", 4, "(Molecules methods that delegate with copy=)")
+
+
+def row_axis_clause(model, rep):
+    """Vectors are stored one per row ((N, 3) tables).  A per-molecule reduction or product in the rotation helpers therefore names the component axis (axis=1 / -1):
+    without it `np.sum` adds over all molecules of the batch and every orientation depends on the other rows."""
+    n = 0
+    for fn in model.all_functions:
+        if fn.module.relpath not in ("acryo/molecules/_rotation.py",) and not (fn.module.relpath == "acryo/molecules/core.py" and fn.cls is None):
+            continue
+        for c in ast.walk(fn.node):
+            if not isinstance(c, ast.Call):
+                continue
+            last = (dotted(c.func) or "").rsplit(".", 1)[-1]
+            if last not in ("sum", "cross", "norm", "mean", "prod", "nansum"):
+                continue
+            if not (dotted(c.func) or "").startswith(("np.", "numpy.")):
+                continue
+            n += 1
+            rep.instance("ROWAXIS", fn.loc(c))
+            ax = kwarg(c, "axis")
+            if ax is None and last in ("sum", "mean", "prod", "nansum", "norm") and len(c.args) >= 2:
+                ax = c.args[1]
+            ok = ax is not None and (isinstance(ax, ast.Name) or norm_src(ax) in ("1", "-1"))
+            rep.ob("ROWAXIS", fn.anchor, "a per-molecule reduction / cross product over an (N, 3) table names the component axis (axis=1 or -1)", ok,
+                   f"`{norm_src(c)[:70]}` " + ("has no axis: it runs over the whole batch" if ax is None else f"uses axis={norm_src(ax)}"), node=c, fn=fn,
+                   clause="1 axis table")
+    rep.floor("ROWAXIS", 4, "(np.sum / np.cross in the rotation helpers)")
+
+
 # --------------------------------------------------------------------------- clause 5: degenerate axes selected per row (S16)
 def degenerate_clause(model, rep, funcs):
     g = funcs.get(MR + "axes_to_rotator")
@@ -421,6 +466,8 @@ def check(model, rep, tier):
     composition_clause(model, rep, funcs)
     euler_clause(model, rep, funcs)
     copy_clause(model, rep, funcs)
+    copy_forwarding_clause(model, rep)
+    row_axis_clause(model, rep)
     degenerate_clause(model, rep, funcs)
     from .generic import cache_coherence_obligations
     cache_coherence_obligations(model, rep, model.cls(MC + "Molecules"), "2 composition", names=("x", "y", "z", "pos", "rotator", "features", "quaternion", "matrix",
